@@ -1,6 +1,7 @@
 package main
 
 import (
+	"runtime"
 	"hash/fnv"
 	"bytes"
 	"context"
@@ -591,11 +592,18 @@ var solvers = []solver{
 	}},
 }
 
+// solverSlots bounds the number of solver processes running at once: more processes than cores make every one of
+// them slower, per-obligation time limits then fire for no semantic reason and the obligations are re-run one by one
+// on three solvers, which makes the overload worse (seen with the largest generated functions).
+var solverSlots = make(chan struct{}, runtime.NumCPU()+runtime.NumCPU()/2)
+
 func runSolver(sv solver, script string, timeoutS int, total time.Duration, tmpdir string, tag string) (string, float64) {
 	f := filepath.Join(tmpdir, tag+"."+sv.name+".smt2")
 	os.WriteFile(f, []byte(script), 0644)
 	defer os.Remove(f)
 	args := sv.cmd(f, timeoutS)
+	solverSlots <- struct{}{}
+	defer func() { <-solverSlots }()
 	ctx, cancel := context.WithTimeout(context.Background(), total)
 	defer cancel()
 	cmd := exec.CommandContext(ctx, args[0], args[1:]...)
